@@ -510,7 +510,9 @@ def request_shape(cfg, ins, outs, second=False) -> str:
     return "strict-subset"
 
 
-def signature(inv, cfg, shape):
+def signature(inv, cfg, shape, msg=""):
+    if inv == "linearize-raises":  # the exception class is part of the defect site
+        inv = "linearize-raises:" + msg.split(":")[0].strip()[:40]
     return {"invariant": inv, "mode": cfg.get("mode", "auto"), "matrix": cfg.get("mtype", "matrix"), "lu": bool(cfg.get("lu")),
             "solver": cfg.get("solver", "DEFAULT"), "graph": cfg["graph"], "mda": cfg.get("mda", "MDAGaussSeidel"), "request": shape}
 
@@ -567,6 +569,9 @@ def one_request(cfg: dict, point: int, ins, outs):
         mda.add_differentiated_outputs(list(outs))
         jac = mda.linearize({k: v.copy() for k, v in oracle.x.items()})
     except Exception as e:
+        if _is_breakdown(e, cfg):
+            obs["breakdown"] = True
+            return None, obs, []
         return None, obs, [("linearize-raises", f"{type(e).__name__}: {str(e)[:300]}")]
     obs["mda_residual"] = float(mda.normed_residual)
     obs["body_runs"] = [d.n_run for d in discs]
@@ -576,6 +581,19 @@ def one_request(cfg: dict, point: int, ins, outs):
     bad, worst = check_jac(jac, oracle, ins, outs)
     obs["worst_error_over_bound"] = worst
     return jac, obs, bad
+
+
+LANCZOS_TYPE = ("BICG", "BICGSTAB", "CGS", "TFQMR")
+
+
+def _is_breakdown(e: Exception, cfg: dict) -> bool:
+    """Oracle boundary.  The solvers built on the two-sided Lanczos recurrence break down (division by r~.r = 0) on
+    legitimate systems - here whenever the right-hand side is an eigenvector of dR/dy^T (an upstream weakly coupled
+    discipline: its row of dR/dy is -I) - and gemseo then raises RuntimeError("... illegal input or breakdown"): a
+    loud "no result", not a wrong derivative.  Accepted for these four solvers only, and never with LU; the
+    GMRES-type solvers (DEFAULT, LGMRES, GMRES, GCROT) of the same product must answer every request."""
+    return (isinstance(e, RuntimeError) and "illegal input or breakdown" in str(e) and cfg.get("solver") in LANCZOS_TYPE
+            and not cfg.get("lu"))
 
 
 _ORACLES: dict = {}
@@ -636,7 +654,7 @@ def part_product(case, tally):
                             bad.append(("block-independent-of-request", f"d{o}/d{i} differs by {err:.3e} from the block of request {full} (2 x bound {2 * bound:.3e})"))
         for inv, msg in bad:
             sub = {**case, "requests": [[ins, outs]] if inv != "block-independent-of-request" else [list(full), [ins, outs]]}
-            tally.violation(signature(inv, cfg, shape), sub, f"{inv}: {msg}\n  config={cfg} point={point} inputs={ins} outputs={outs}")
+            tally.violation(signature(inv, cfg, shape, msg), sub, f"{inv}: {msg}\n  config={cfg} point={point} inputs={ins} outputs={outs}")
             out["violations"].append({"invariant": inv, "inputs": ins, "outputs": outs, "message": msg})
         mode_used = "-"
         if obs.get("linear_resolutions"):
@@ -644,10 +662,12 @@ def part_product(case, tally):
             mode_used = ("direct" if d else "adjoint" if a else "none") + ("+lu" if lu else "")
         tally.case((cfg_key(cfg), point, tuple(ins), tuple(outs)),
                    nontrivial=shape != "all",
-                   outcome=f"{cfg['graph']}:{'raises' if jac is None else mode_used}:{'conv' if obs.get('mda_residual', 1) <= MDA_TOL * 10 else 'notconv'}",
+                   outcome=f"{cfg['graph']}:{'solver-breakdown' if obs.get('breakdown') else 'raises' if jac is None else mode_used + (':conv' if obs.get('mda_residual', 1) <= MDA_TOL * 10 else ':notconv')}",
                    sample={"config": cfg, "point": point, "inputs": ins, "outputs": outs, **obs} if (len(ins), len(outs)) == (2, 2) and cfg["graph"] == "weakup" and cfg.get("mode") == "adjoint" else None)
         if obs.get("mda_residual", 0) > MDA_TOL * 10:
             tally.count("mda_not_converged")
+        if obs.get("breakdown"):
+            tally.count(f"lanczos_type_solver_breakdown_accepted:{cfg['graph']}:{cfg['solver']}")
         out["requests"].append({"inputs": ins, "outputs": outs, **obs,
                                 "jacobian": None if jac is None else {o: {i: _dense(jac[o][i]).tolist() for i in jac[o]} for o in jac}})
     return out
@@ -796,7 +816,7 @@ def part_history(case, tally):
         rel = _rel(r1, r2)
         for label, inv, msg in bad:
             shape = "second-request" if label == "second" else ("all" if r1 == ALL else request_shape(cfg, r1[0], r1[1]))
-            sig = signature(inv, cfg, shape)
+            sig = signature(inv, cfg, shape, msg)
             sig["level"] = level
             if label == "second":
                 sig["relation"] = rel
@@ -835,8 +855,10 @@ def linear_configs(solvers, lu_solvers):
 def cases(thorough: bool, solvers: list):
     """Simplest first: default kind / default solver / full3 come first in every loop."""
     default_lin = linear_configs(["DEFAULT"], ["DEFAULT"])
+    nolu_lin = [c for c in default_lin if not c["lu"]]
     full_lin = linear_configs(solvers, solvers if thorough else ["DEFAULT"])
     kinds = [DEFAULT_KIND] + [k for k in MDA_KINDS if k != DEFAULT_KIND]
+    others = kinds[1:]
     seen = set()
 
     def emit(cfg, point):
@@ -854,9 +876,9 @@ def cases(thorough: bool, solvers: list):
                     c = emit({"graph": graph, "mda": kind, **lin}, point)
                     if c:
                         yield c
-    # B. quick: the other MDA kinds and the second point with the default solver
-    for kind in kinds:
-        for lin in default_lin:
+    # B. quick: the second point (default kind) and the other MDA kinds, default solver
+    for kind, lins in [(DEFAULT_KIND, default_lin)] + [(k, nolu_lin) for k in others]:
+        for lin in lins:
             for graph in GRAPHS:
                 c = emit({"graph": graph, "mda": kind, **lin}, 1)
                 if c:
@@ -865,26 +887,27 @@ def cases(thorough: bool, solvers: list):
     #    every block whatever is requested
     for rep, fill in (("csr", "requested"), ("operator", "requested"), ("dense", "all")):
         for kind in (kinds if thorough else [DEFAULT_KIND]):
-            for lin in default_lin:
+            for lin in (default_lin if thorough else nolu_lin if fill == "requested" else [c for c in nolu_lin if c["mtype"] == "matrix"]):
                 for graph in GRAPHS:
                     c = emit({"graph": graph, "mda": kind, **lin, "rep": rep, "fill": fill}, 1)
                     if c:
                         yield c
     # D. histories on one object, default configuration
     dflt = {"mode": "auto", "mtype": "matrix", "lu": False, "solver": "DEFAULT"}
-    alphabet = "full" if thorough else "reduced"
     for kind in (kinds if thorough else [DEFAULT_KIND]):
+        alphabet = "full" if thorough and kind == DEFAULT_KIND else "reduced"
         for graph in GRAPHS:
             cfg = {"graph": graph, "mda": kind, **dflt}
-            for points in (([0, 1], [1, 1]) if thorough else ([0, 1],)):
+            for points in (([0, 1], [1, 1]) if thorough and kind == DEFAULT_KIND else ([0, 1],)):
                 for r1 in history_requests(cfg, alphabet) + [ALL]:
                     yield {"part": "history", "level": "mda", "cfg": cfg, "points": points, "r1": r1, "r2": alphabet}
-    for kind in ([DEFAULT_KIND, "MDAChain"] if thorough else [DEFAULT_KIND]):
+    for kind, modes in ([(DEFAULT_KIND, MODES), ("MDAChain", ["auto"])] if thorough else [(DEFAULT_KIND, ["auto"])]):
+        alphabet = "full" if thorough else "reduced"
         for graph in GRAPHS:
-            for mode in (MODES if thorough else ["auto"]):
+            for mode in modes:
                 cfg = {"graph": graph, "mda": kind, **dflt, "mode": mode}
-                for r1 in history_requests(cfg, "full"):
-                    yield {"part": "history", "level": "assembly", "cfg": cfg, "points": [1, 1], "r1": r1, "r2": "full"}
+                for r1 in history_requests(cfg, alphabet):
+                    yield {"part": "history", "level": "assembly", "cfg": cfg, "points": [1, 1], "r1": r1, "r2": alphabet}
 
 
 def run(ctx):
@@ -903,6 +926,12 @@ def run(ctx):
     t.notes["graphs"] = {gr: {"kappa_2(dR/dy)": round(_oracle(gr, 0).kappa, 3), "n_y": _oracle(gr, 0).ny, "y": _oracle(gr, 0).y} for gr in GRAPHS}
     t.notes["alphabet"] = ALPHA["name"]
     pmap(_case, todo, t, jobs=ctx.jobs, chunk=2, timeout=600)
+    classes = {}
+    for v in t.violations.values():
+        sg = v["signature"]
+        k = f"{sg.get('invariant')}|{sg.get('graph')}"
+        classes[k] = classes.get(k, 0) + v["count"]
+    t.notes["violations_by_invariant_and_graph"] = classes
     return {
         "level": LEVEL,
         "rule": "E2 full product: coupling graph (6) x linearization mode (3) x {sparse matrix, sparse matrix + LU, linear operator} x linear "
@@ -916,7 +945,8 @@ def run(ctx):
         "exhaustive": True,
         "bounds": {"graphs": GRAPHS, "disciplines": "2-3", "sizes": {"y": ALPHA["ysz"], "x": ALPHA["xsz"], "f": ALPHA["fsz"]},
                    "linear_solver_tolerance": LIN_TOL, "mda_tolerance": MDA_TOL, "mda_kinds": MDA_KINDS,
-                   "history_request_alphabet": "49 subsets + ALL" if ctx.thorough else "input subsets of size 1 and 3 x 7 output subsets + ALL (discipline API); 49 x 49 (assembly API)"},
+                   "history_request_alphabet": "49 subsets (+ ALL), every ordered pair, for the default MDA kind; input subsets of size 1 and 3 for the other kinds" if ctx.thorough
+                   else "input subsets of size 1 and 3 x 7 output subsets (+ ALL at the discipline API): 29 x 29 and 28 x 28 ordered pairs per graph"},
         "assumptions": [
             "systems affine in the couplings / states (dR/dy constant, kappa_2 <= 3) and quadratic in the design variables; three value alphabets "
             "(sizes, gains, points) rotated by VERIF_SEED; structural axes exhaustive, values not",
